@@ -323,7 +323,8 @@ pub fn gen(seed: u64, count: usize, tier: &str, params: &Params) -> Vec<Value> {
                 let d = rng.range(1, 3) as usize;
                 let mut axes: Vec<Vec<i64>> = (0..d).map(|_| random_edges(&mut rng, 6)).collect();
                 if rng.chance(1, 8) { let k = rng.below(d as u64) as usize; let n = rng.range(10, 40); axes[k] = (0..n).map(|_| rng.range(-6, 12)).collect(); }
-                let np = rng.range(0, if tier == "thorough" { 200 } else { 40 });
+                // sometimes more rows than any plausible block size of a block-wise implementation
+                let np = if rng.chance(1, 5) { rng.range(60, 200) } else { rng.range(0, if tier == "thorough" { 200 } else { 40 }) };
                 let pts: Vec<Vec<i64>> = (0..np).map(|_| (0..d).map(|a| { let e = &axes[a];
                     if !e.is_empty() && rng.chance(1, 2) { *rng.pick(e) } else { rng.range(-8, 14) } }).collect()).collect();
                 if rng.chance(1, 2) {
@@ -396,7 +397,7 @@ pub fn gen(seed: u64, count: usize, tier: &str, params: &Params) -> Vec<Value> {
                 let (mode, lo, hi): (&str, i64, i64) = if sty == "n64" {
                     match rng.below(6) { 0 => ("tenth", 0, 400), 1 => ("offset", 0, 2000), 2 => ("big", 0, 3), 3 => ("third", -50, 50), _ => ("quarter", -200, 200) }
                 } else if sty == "u32" { ("int", 0, 100000) } else { ("int", -50000, 50000) };
-                let style = rng.below(6);
+                let style = rng.below(7);
                 let c0 = rng.range(lo, hi);
                 let data: Vec<i64> = (0..n).map(|k| match style {
                     0 => c0,                                                       // constant
@@ -404,6 +405,7 @@ pub fn gen(seed: u64, count: usize, tier: &str, params: &Params) -> Vec<Value> {
                     2 => lo + (k * (hi - lo)) / n.max(1),                          // regular steps
                     3 => rng.range(lo, lo + (hi - lo) / 50 + 1),                   // narrow range
                     4 => c0 + rng.range(0, 5),                                     // a handful of tied values: integer widths truncate to zero
+                    5 => c0 + rng.range(0, (n / 2).max(2)),                         // range below n: the truncated integer width loses whole bins
                     _ => rng.range(lo, hi) }).collect();
                 cases.push(json!({"ev": "strategy", "ty": sty, "strat": strat, "mode": mode, "data": data}));
             }
